@@ -6,7 +6,7 @@
    authorization handler the single exception to C17_silent is the deny veto (C08_deny_unconfigured). *)
 From Coq Require Import NArith Arith List String.
 From Rodbus Require Import Base.Outcome Base.ServerTypes Model.Server Model.ServerRender Model.ServerExec Spec.Modbus
-  Proofs.ServerParse Proofs.ServerProofs Proofs.ServerProps Proofs.ServerTheorems.
+  Proofs.ServerParse Proofs.ServerProofs Proofs.ServerProps Proofs.ServerTheorems Proofs.ReaderTies.
 Import ListNotations.
 Local Open Scope N_scope.
 
@@ -76,6 +76,15 @@ Theorem C17_unit_effect : forall (St : Type) (H : handler St) l units fr fc r u 
   (forall k, k <> h -> u_store (units_of x) k = u_store units k).
 Proof. exact @unit_effect. Qed.
 Print Assumptions C17_unit_effect.
+
+(* across RTU port re-opens the SAME reader is used: a framing error resets the parser, so the destination of a
+   damaged frame is never attached to the next frame on the bus (regenerated from common/frame.rs) *)
+Theorem C17_reader_resets_on_error :
+  Gen.ReaderLoop.next_frame_resets_parser_on_entry = false /\ Gen.ReaderLoop.next_frame_resets_parser_on_error = true /\
+  Gen.ReaderLoop.read_some_compaction =
+    ["let length = self.len()"; "self.buffer.copy_within(self.begin..self.end, 0)"; "self.begin = 0"; "self.end = length"]%string.
+Proof. exact reader_loop_shape. Qed.
+Print Assumptions C17_reader_resets_on_error.
 
 (* non-vacuity: units 1 and 5 (unit 5 refuses register 0 with exception 4). Broadcast write single
    register reaches both, once, in order, no answer; broadcast read ignored; malformed request to
